@@ -315,4 +315,99 @@ theorem concatLoop_req (maxCost : Nat) {l l' : List Val} (h : ListReq l l') (cos
         · exact ih _ _ (.cons hx ht)
         · exact ih _ _ ht
 
+/-- a fold that does not look at tags (the byte-gathering fold of `new_concat`) -/
+theorem foldl_req {β : Type} (f : β → Val → β)
+    (hatom : ∀ acc b, f acc (.atom b true) = f acc (.atom b false))
+    (hpair : ∀ acc l r l' r', f acc (.pair l r) = f acc (.pair l' r'))
+    {l l' : List Val} (h : ListReq l l') (acc : β) :
+    l.foldl f acc = l'.foldl f acc := by
+  induction h generalizing acc with
+  | nil => rfl
+  | cons hx _ ih =>
+    simp only [List.foldl_cons]
+    have : f acc _ = f acc _ :=
+      req_of_tag (f acc) (fun b _ => hatom acc b) (fun l r l' r' _ _ => hpair acc l r l' r') hx
+    rw [this, ih]
+
+theorem newConcat_req (c : Ctr) (newSize : Nat) {l l' : List Val} (h : ListReq l l') :
+    ArgsRel (fun r r' => Req r.1 r'.1 ∧ r.2 = r'.2) (newConcat c newSize l) (newConcat c newSize l') := by
+  unfold newConcat
+  cases c.checkAtomLimit with
+  | error e => exact .err e
+  | ok u =>
+    simp only []
+    split
+    · exact .err _
+    · match l, l', h with
+      | [], [], _ =>
+        simp only []
+        split
+        · exact .err _
+        · exact .ok _ _ ⟨Req.nil, rfl⟩
+      | [x], [x'], .cons hx .nil =>
+        cases hx.cases with
+        | pair _ _ _ _ _ _ => exact .err _
+        | atom b t t' _ _ =>
+          simp only []
+          split
+          · exact .err _
+          · exact .ok _ _ ⟨hx, rfl⟩
+      | x :: y :: l, x' :: y' :: l', h =>
+        simp only []
+        rw [foldl_req _ _ _ h]
+        rotate_left
+        · intro acc b; cases acc <;> rfl
+        · intro acc _ _ _ _; cases acc <;> rfl
+        split
+        · exact .err _
+        · split
+          · exact .err _
+          · exact .ok _ _ ⟨Req.refl (by rfl), rfl⟩
+
+theorem opConcat_repr : OpRepr true opConcat := opRepr_of_req fun flags m a a' c h => by
+  unfold opConcat
+  rcases (concatLoop_req m (argList_req h) Gen.CONCAT_BASE_COST 0 .nil).cases' with
+    ⟨e, h1, h2⟩ | ⟨⟨k, sz, ts⟩, ⟨k', sz', ts'⟩, h1, h2, hk, hsz, hts⟩
+  · rw [h1, h2]; exact .err _ e
+  · rw [h1, h2]
+    simp only at hk hsz hts
+    subst hk; subst hsz
+    rcases (newConcat_req c sz hts).cases' with ⟨e, h1, h2⟩ | ⟨⟨v, c1⟩, ⟨v', c1'⟩, h1, h2, hv, hc⟩
+    · simp only [h1, h2]; exact .err _ e
+    · simp only [h1, h2]
+      simp only at hc; subst hc
+      exact .ok_req _ _ _ hv
+
+/-! ### multiply -/
+
+theorem mulLoop_req (cfg : Cfg) (flags : Flags) (maxCost sqDiv : Nat) {l l' : List Val} (h : ListReq l l')
+    (cost : Nat) (total : Int) (l0 : Nat) :
+    mulLoop cfg flags maxCost sqDiv l cost total l0 = mulLoop cfg flags maxCost sqDiv l' cost total l0 := by
+  induction h generalizing cost total l0 with
+  | nil => rfl
+  | @cons x x' l l' hx _ ih =>
+    have e1 : mulLoop cfg flags maxCost sqDiv (x :: l) cost total l0 =
+        mulLoop cfg flags maxCost sqDiv (x :: l') cost total l0 := by
+      simp only [mulLoop, ih]
+    rw [e1]
+    refine req_of_tag (fun v => mulLoop cfg flags maxCost sqDiv (v :: l') cost total l0) ?_ ?_ hx
+    · intro b hb
+      have h256 : ¬ b.length > 256 := by have := hb.len4; omega
+      obtain ⟨fp⟩ := cfg
+      cases fp <;>
+        simp only [mulLoop, node, intAtom, hb.dec, hb.len, h256, decide_false, Bool.and_false,
+          Bool.false_eq_true, if_false, if_true]
+    · intro l r l' r' _ _
+      obtain ⟨fp⟩ := cfg
+      cases fp <;> simp only [mulLoop, node, intAtom]
+
+theorem opMultiply_repr (cfg : Cfg) : OpRepr true (opMultiply cfg) := opRepr_of_eq fun flags m a a' c h => by
+  unfold opMultiply
+  have hl := argList_req h
+  generalize argList a = l at hl
+  generalize argList a' = l' at hl
+  cases hl with
+  | nil => rfl
+  | cons hx ht => simp only [intAtom_req hx, mulLoop_req _ _ _ _ ht]
+
 end Clvm.Interp
